@@ -14,6 +14,7 @@ Functions:
 from __future__ import annotations
 
 import multiprocessing
+import os
 import pickle
 import sys
 from dataclasses import dataclass
@@ -86,7 +87,11 @@ def _load_or_run[K: Hashable, Tin, Tout](
         if file.exists():
             return k, cast(Tout, cache.load_fn(file))
         res = fn(v)
-        cache.save_fn(file, res)
+        # Write under a temporary name and rename: a run that is interrupted while
+        # saving must not leave a partial file which the next run would try to load
+        tmp_file = file.with_name(f"{file.name}.{os.getpid()}.tmp")
+        cache.save_fn(tmp_file, res)
+        tmp_file.replace(file)
     return k, res
 
 
